@@ -473,7 +473,7 @@ func checkOption(h *hx.H, idx int64, schema string, ti int, t optType, li int, l
 		// (x_m).m = {..} / { m: {..} } - nested message, fine
 	}
 	fs := fileSet{"opt.proto": schema, "main.proto": c20Main(level, stmt)}
-	res := compile(fs, protocompile.SourceInfoNone, "main.proto")
+	res := compileC20(h, idx, fs, "main.proto")
 	h.Trace(1)
 	if verdict == "unknown" {
 		h.Count("model_unknown", 1)
@@ -558,7 +558,7 @@ func checkOptionPair(h *hx.H, idx int64, schema string, i int, a pstmt, j int, b
 	h.Trans(1)
 	desc := fmt.Sprintf("statements `%s` then `%s`", a.text, b.text)
 	fs := fileSet{"opt.proto": schema, "main.proto": c20Main(0, a.text, b.text)}
-	res := compile(fs, protocompile.SourceInfoNone, "main.proto")
+	res := compileC20(h, idx, fs, "main.proto")
 	h.Trace(1)
 	conflict := a.invalid || b.invalid || alreadySet(a, b)
 	h.NonTrivial++
@@ -661,7 +661,7 @@ func checkKind(h *hx.H, idx int64, ki, perm, n int) {
 	fail := func(sig, format string, args ...any) {
 		h.Violate(sig, hx.CaseID(idx), desc+": "+fmt.Sprintf(format, args...), map[string]any{"source": src})
 	}
-	res := compile(fileSet{"kinds.proto": kindSchema(), "main.proto": src}, protocompile.SourceInfoNone, "main.proto")
+	res := compileC20(h, idx, fileSet{"kinds.proto": kindSchema(), "main.proto": src}, "main.proto")
 	h.Trace(1)
 	h.NonTrivial++
 	if res.err != nil {
@@ -788,7 +788,7 @@ func checkTargets(h *hx.H, idx int64, ki, form, t1, t2 int) {
 	}[k.name]
 	src := "syntax = \"proto2\";\npackage q;\nimport \"t.proto\";\n" + strings.ReplaceAll(body, "%S%", stmt) + "\n"
 	desc := fmt.Sprintf("%s carries `%s` whose field declares [%s]", k.name, stmt, tl)
-	res := compile(fileSet{"t.proto": schema.String(), "main.proto": src}, protocompile.SourceInfoNone, "main.proto")
+	res := compileC20(h, idx, fileSet{"t.proto": schema.String(), "main.proto": src}, "main.proto")
 	h.Trace(1)
 	if t1 != ki {
 		h.NonTrivial++
@@ -800,4 +800,14 @@ func checkTargets(h *hx.H, idx int64, ki, form, t1, t2 int) {
 	case !allowed && res.err == nil:
 		h.Violate("targets-accepts-forbidden:"+k.name, hx.CaseID(idx), desc+": the element kind is not among the targets but the compiler accepts", map[string]any{"schema": schema.String(), "source": src})
 	}
+}
+
+// compileC20 compiles and reports a compile that ends in a recovered panic: that is neither
+// acceptance nor a diagnosis of the option statement.
+func compileC20(h *hx.H, idx int64, fs fileSet, names ...string) *compiled {
+	res := compile(fs, protocompile.SourceInfoNone, names...)
+	if res.err != nil && strings.Contains(res.err.Error(), "panic handling") {
+		h.Violate("compiler-panics", hx.CaseID(idx), "the compile ends with a recovered panic: "+res.err.Error(), map[string]any{"files": map[string]string(fs)})
+	}
+	return res
 }
